@@ -420,3 +420,11 @@ def rule_senders(ctx):
 
 
 RULES.append(("C11.h", "a send is always attempted (the SendError of a dropped mailbox cannot be skipped by a sender)", rule_senders))
+
+
+def rule_mustpass(ctx):
+    from . import mustpass
+    mustpass.check(ctx, ['port-send-throws', 'source-send-throws', 'worker-panic-registered', 'worker-panic-wakes-executor', 'mt-run-checks-panic', 'st-run-reports-panic'])
+
+
+RULES.append(("C11.i", "must-pass-through: no path around the effects this property rests on (added fast paths / early returns)", rule_mustpass))
